@@ -1159,7 +1159,7 @@ func (v *FnVC) flatten(e Expr) []Expr {
 		if x.Forall {
 			var out []Expr
 			for _, c := range v.flatten(x.Body) {
-				out = append(out, &Quant{true, x.Vars, c})
+				out = append(out, &Quant{true, x.Vars, c, x.Triggers})
 			}
 			return out
 		}
